@@ -493,8 +493,9 @@ class HistogramND(HistogramBase):
         # TODO: inplace
         new_one = self.copy()
         axis_id = self._get_axis(axis)
+        wide = np.float64 if self.dtype.kind == "f" and self.dtype.itemsize < 8 else None
         new_one._frequencies = new_one._adopt_values(
-            np.cumsum(new_one.frequencies, axis_id)
+            np.cumsum(new_one.frequencies, axis_id, dtype=wide)
         )
         return new_one
 
@@ -517,8 +518,10 @@ class HistogramND(HistogramBase):
         """
         # TODO: rename to project in 0.5
         axes, invert = self._get_projection_axes(*axes)
-        frequencies = self.frequencies.sum(axis=invert)
-        errors2 = self.errors2.sum(axis=invert)
+        # float16 / float32 contents are summed (and kept) in double precision, as narrow integers are in int64
+        wide = np.float64 if self.dtype.kind == "f" and self.dtype.itemsize < 8 else None
+        frequencies = self.frequencies.sum(axis=invert, dtype=wide)
+        errors2 = self.errors2.sum(axis=invert, dtype=wide)
         return self._reduce_dimension(axes, frequencies, errors2, **kwargs)
 
     def __eq__(self, other: Any):
